@@ -223,10 +223,12 @@ def apply_transform(
     def new_forward(*args: Any, **kwargs: Any) -> Any:
         if module.rerun_transform:
             torch._dynamo.reset()
-            if type(module).__module__.startswith(("torch.nn.", "torch.ao.")):
-                # TorchDynamo does not trace the `forward()` of a `torch.nn` module
-                # (e.g. nn.Linear, nn.Sequential) when it is the outermost frame, so
-                # such a root module is entered through this (user-code) function
+            forward_home = getattr(type(module).forward, "__module__", None) or ""
+            if forward_home.startswith(("torch.nn.", "torch.ao.")):
+                # TorchDynamo does not trace a `forward()` defined in `torch.nn` (that
+                # of nn.Linear, nn.Sequential, or of a subclass inheriting it) when it
+                # is the outermost frame, so such a root module is entered through
+                # this (user-code) function
                 def call_module(*args: Any, **kwargs: Any) -> Any:
                     return module(*args, **kwargs)
 
